@@ -21,12 +21,12 @@ import os
 import random
 
 ALIASES = ("fl", "", "*", "fuzzy")
-DOUBLES = (0.1 + 0.2, 1.0 / 3.0, 1e-7, 123456.789012345, 2.0 / 3.0, -0.7000000000000001, math.pi, 1e22, -2.5e-9, 0.30000000000000004 * 3)
-NAMES_IN = ("a", "in_1", "Temp", "_u", "b2", "Ambient", "speed_kmh")
+DOUBLES = (0.1 + 0.2, 1.0 / 3.0, 1e-7, 123456.789012345, 2.0 / 3.0, -0.7000000000000001, math.pi, 1e22, -2.5e-9, 0.30000000000000004 * 3, -0.0)
+NAMES_IN = ("a", "in_1", "Temp", "_u", "b2", "Ambient", "speed_kmh", "class")
 NAMES_OUT = ("o", "out_1", "Power", "_w", "y2")
-TERM_NAMES = ("low", "mid", "high", "t_1", "VeryHigh", "_z", "k9", "cold", "hot")
+TERM_NAMES = ("low", "mid", "high", "t_1", "VeryHigh", "_z", "k9", "cold", "hot", "pass", "lambda")      # (identifiers of the language; two of them are Python keywords)
 DESCR = ("", "simple description", "with: colon, comma and  double  space", "100% of (x) [y] {z} <k> = 1/2; ok!", "Engine: not a block", "")
-DESCR_Q = ("it's \"quoted\"", "back\\slash and \\n literal", "ends with backslash \\", "'", '"""triple""" \'\'\'', "tab\there")
+DESCR_Q = (" ", "it's \"quoted\"", "back\\slash and \\n literal", "ends with backslash \\", "'", '"""triple""" \'\'\'', "tab\there")
 
 
 EMPTY_FUNCTION = False  # set through the entry points' keyword `empty_function`: lone Function terms without a formula
